@@ -1,0 +1,25 @@
+//go:build verif
+
+package server
+
+import (
+	"context"
+
+	"go.lsp.dev/protocol"
+)
+
+// VerifYieldHook is set by the verification harness (build tag "verif" only). Every
+// diagnostics task calls it right before it takes publishMu; the hook may block to impose a
+// schedule. The function it returns (may be nil) runs after the task has released publishMu.
+var VerifYieldHook func(ctx context.Context, docURI protocol.DocumentURI, version uint64) func()
+
+func verifYield(ctx context.Context, docURI protocol.DocumentURI, version uint64) func() {
+	if hook := VerifYieldHook; hook != nil {
+		if done := hook(ctx, docURI, version); done != nil {
+			return done
+		}
+	}
+	return verifNop
+}
+
+func verifNop() {}
